@@ -194,6 +194,7 @@ class RetrievalPrecision(Metric[torch.Tensor]):
         Args:
             metrics (Iterable[Metric]): metric instances whose states are to be merged.
         """
+        metrics = list(metrics)  # the iterable is traversed more than once
         for i in range(self.num_queries):
             self.topk[i] = torch.cat([self.topk[i]] + [m.topk[i] for m in metrics]).to(
                 self.device
